@@ -120,7 +120,9 @@ def dstJudgeStep (toks : List String) : String :=
   let (lhs, rhs) := splitArrow toks
   match lhs, parseDst rhs with
   | op :: _zone :: a, some (res, z) => match ints a with
-    | some a => judgeCore z.offAt z.offsets op a res
+    | some a =>
+      -- `nextx` is `next` on a request the generator classified as skipped/repeated; judged alike
+      judgeCore z.offAt z.offsets (if op == "nextx" then "next" else op) a res
     | none => "bad-op"
   | _, _ => "bad-op"
 
